@@ -28,10 +28,11 @@ func Run(c *vf.Check) {
 		runPoints(c, gs[i])
 		runScalars(c, gs[i])
 	})
+	runAdvertised(c)
 	c.Finish("engine S/E: per group, the closure R of API-reachable point representations (seeds, sums, negations, multiples incl. Mul(s,nil), decoded forms) and the reduced scalar set (alphabet S(q) + arithmetic results). "+
 		"Per value: encoding length = MarshalSize = PointLen/ScalarLen; decode into receivers in 4 prior states (fresh, identity, base, projective sum) succeeds, is Equal, re-encodes identically; MarshalTo writes exactly the bytes; "+
 		"UnmarshalFrom under readers {whole, one-byte, half, data+EOF, trailing data} gives the value and under {one byte short, empty} an error; hex helpers (ToStringHex/StringHexTo/ReadHex/WriteHex) carry exactly hex(bytes); encoding twice is identical and leaves the value Equal to a prior copy; all pairs: Equal <=> identical bytes <=> model equality. "+
-		"non-trivial = value is not the identity/zero; distinct by (group, value expression, sub-check)",
+		"Advertised lengths on every exported configuration of edwards25519vartime ({Curve1174, Ed25519, E-382, Curve41417, E-521} x {projective, extended} x {prime-order subgroup, full group}): encodings of points and scalars have exactly PointLen / ScalarLen bytes and round-trip. non-trivial = value is not the identity/zero; distinct by (group, value expression, sub-check)",
 		[]string{"model equality of points is decided by the free-module model of C01", "readers are io.Reader-conformant (testing/iotest)"}, nil)
 }
 
@@ -115,6 +116,13 @@ func runPoints(c *vf.Check, g *groups.G) {
 			b2, _ := v.P.MarshalBinary()
 			if !bytes.Equal(b, b2) {
 				x.Failf(pk+"/encode-twice", "%s: second MarshalBinary differs", v.Name)
+			}
+			// writing into a returned encoding does not change the value
+			for i := range b2 {
+				b2[i] ^= 0x5a
+			}
+			if b3, _ := v.P.MarshalBinary(); !bytes.Equal(b, b3) {
+				x.Failf(pk+"/encoding-aliases-value", "%s: writing into the slice returned by MarshalBinary changed the point", v.Name)
 			}
 			if !v.P.Equal(before) {
 				x.Failf(pk+"/encode-changes-value", "%s: not Equal to the model value after encoding", v.Name)
@@ -290,6 +298,27 @@ func runScalars(c *vf.Check, g *groups.G) {
 			}
 			if v.v != nil && alpha.FromScalar(v.s).Cmp(v.v) != 0 {
 				x.Failf(pk+"/value", "%s: encodes %s, model %s", v.name, alpha.FromScalar(v.s), v.v)
+			}
+			// the returned encoding and the value are independent of each other: writing into the buffer does not
+			// change the value, changing (a clone-free copy of) the value in place does not change the buffer
+			{
+				tmp := g.Scalar()
+				if tmp.UnmarshalBinary(append([]byte{}, b...)) == nil {
+					e1, _ := tmp.MarshalBinary()
+					keep := append([]byte{}, e1...)
+					for i := range e1 {
+						e1[i] ^= 0x5a
+					}
+					if e2, _ := tmp.MarshalBinary(); !bytes.Equal(e2, keep) {
+						x.Failf(pk+"/encoding-aliases-value", "%s: writing into the slice returned by MarshalBinary changed the scalar", v.name)
+					}
+					e3, _ := tmp.MarshalBinary()
+					keep3 := append([]byte{}, e3...)
+					tmp.Add(tmp, g.Scalar().One())
+					if !bytes.Equal(e3, keep3) {
+						x.Failf(pk+"/encoding-aliases-value", "%s: changing the scalar in place changed a slice MarshalBinary returned earlier", v.name)
+					}
+				}
 			}
 			for _, rn := range []string{"fresh", "one", "junk"} {
 				y := g.Scalar()
